@@ -304,6 +304,19 @@ fn corpus(thorough: bool) -> Vec<String> {
         "Sun, 30 Aug 2015 12:36:00 GMT", "1440938160", "20150830 123600Z", "20150830T123600Z\n", "\u{feff}20150830T123600Z"] {
         set.insert(s.to_string());
     }
+    // a well-formed timestamp followed by a separator and a second timestamp — itself again, or another one (what a
+    // field line combined from two header fields, or a pasted value, looks like): extra characters after the zone
+    let firsts = ["20150830T123600Z", "2015-08-30T12:36:00Z", "20150830T123600.5Z", "20150830T123600+0000", "20150830T123600"];
+    for a in firsts {
+        for sep in [",", ", ", " ", ";", "; ", "/", "", "\t", " , ", ",,"] {
+            for b in [a, "20150830T123601Z", "20150830T123600Z", "Sun, 30 Aug 2015 12:36:00 GMT"] {
+                set.insert(format!("{}{}{}", a, sep, b));
+                set.insert(format!("{}{}{}{}{}", a, sep, b, sep, b));
+            }
+            set.insert(format!("{}{}", a, sep));
+            set.insert(format!("{}{}", sep, a));
+        }
+    }
     set.into_iter().collect()
 }
 
@@ -459,7 +472,7 @@ pub fn run(ctx: &Ctx) -> Report {
 
     Report {
         stats: st,
-        rule: "every value 00..99 of month, day, hour, minute, second, offset hour and offset minute (basic and extended form); 9 years x boundary instants; every day 00..32 of every month of 2015, 2016, 1900, 2000 in two forms; the full product of boundary values of month/day (10 pairs) x hour (5) x minute (5) x second (5, incl. 60 and 61) x 10 zones; all 2^5 separator combinations; every offset hh(00..99) x mm(00..99) x sign (basic; extended for all in thorough); 12 zone designators; all 2^5 combinations of blank-padded / one-digit fields in four layouts; fractions of 0..12 and 13..10000 digits with '.' and ','; every string at edit distance 1 (insert/delete/substitute over 23 characters incl. 3 non-ASCII) from six bases (thorough: also every pair of substitutions and substitution+insertion on two bases); every ordered pair over ~70 related strings (six well-formed timestamps and their look-alikes: separators removed / added, zone dropped, case, blanks, one digit changed) parsed back to back on one thread; each string is evaluated through the unstable API (value and string-to-sign line compared with the reference parser) and end to end on the header carrier (bare and space-padded) and the query carrier; two or three validations whose requests differ only in the timestamp are multiplexed on one thread against a provider that is Pending first, in every order of polls (each verified against its own timestamp line). states = distinct reference instants + reject class; non-trivial = distinct strings".into(),
+        rule: "every value 00..99 of month, day, hour, minute, second, offset hour and offset minute (basic and extended form); 9 years x boundary instants; every day 00..32 of every month of 2015, 2016, 1900, 2000 in two forms; the full product of boundary values of month/day (10 pairs) x hour (5) x minute (5) x second (5, incl. 60 and 61) x 10 zones; all 2^5 separator combinations; every offset hh(00..99) x mm(00..99) x sign (basic; extended for all in thorough); 12 zone designators; all 2^5 combinations of blank-padded / one-digit fields in four layouts; fractions of 0..12 and 13..10000 digits with '.' and ','; every string at edit distance 1 (insert/delete/substitute over 23 characters incl. 3 non-ASCII) from six bases (thorough: also every pair of substitutions and substitution+insertion on two bases); five well-formed timestamps followed by one of 10 separators (',', ', ', blank, ';', '/', tab, none, ...) and a second timestamp — itself again once or twice, or another one; every ordered pair over ~70 related strings (six well-formed timestamps and their look-alikes: separators removed / added, zone dropped, case, blanks, one digit changed) parsed back to back on one thread; each string is evaluated through the unstable API (value and string-to-sign line compared with the reference parser) and end to end on the header carrier (bare and space-padded) and the query carrier; two or three validations whose requests differ only in the timestamp are multiplexed on one thread against a provider that is Pending first, in every order of polls (each verified against its own timestamp line). states = distinct reference instants + reject class; non-trivial = distinct strings".into(),
         bounds: json!({"strings": n}),
         exhaustive: true,
         assumptions: vec![
